@@ -20,8 +20,9 @@ _skips = {"n": 0, "shards": 0}
 def _eval_shard_ext(args):
     """Like vlib.eval_shard, but evaluates run_cases_ext (which also counts the cases whose
     comparison is skipped by the exp-threshold rule) and avoids storing the big term in a .vo."""
-    workdir, name, module, terms, timeout = args
-    text = "From SV Require Import %s.\nEval vm_compute in (run_cases_ext [\n%s\n]).\n" % (module, ";\n".join(terms))
+    workdir, name, module, terms, timeout = args[:5]
+    prelude = args[5] if len(args) > 5 else ""
+    text = "From SV Require Import %s.\n%s\nEval vm_compute in (run_cases_ext [\n%s\n]).\n" % (module, prelude, ";\n".join(terms))
     rc, out = vlib.coq_eval(name, text, timeout=timeout, workdir=workdir)
     if rc != 0:
         return None, out
@@ -63,7 +64,7 @@ class S(Spec):
     prop_file = "Properties/C13.v"
     case_module = "Filter.FilterCases"
     model_targets = ["Filter/FilterCases.vo"]
-    bins = [("c13", "debug", 260, 12000, ["--len", "60"]), ("c13", "release", 140, 8000, ["--len", "60"])]
+    bins = [("c13", "debug", 1400, 12000, ["--len", "60"]), ("c13", "release", 800, 8000, ["--len", "60"])]
     allowed_axioms = FILTER_AXIOMS
     trusted_base = [
         "Coq 8.16.1 kernel, coqc, vm_compute (no native_compute)",
@@ -82,7 +83,7 @@ class S(Spec):
             "(filter, stream family of ten: nominal / equal+backward event times / offsets to 1e9 s / zero variance / mixed kinds / "
             "failing clock / saturating frequency / garbage / lagging or frozen clock / lifecycle, configuration variant, outcome "
             "features: step, slew, saturated, overshoot, non-finite, panic); every class is non-trivial")
-    shard = 25
+    shard = 70
 
 
 def run(tier, seed, replay=None):
